@@ -18,7 +18,9 @@ i64, an error inside a list) the next alternatives continue at the advanced posi
 true` mirrors that; `resume = false` is the evidently intended behaviour (commit after consuming),
 used to name the deviation.  Rust `expect`/`assert!` sites are `.panic`.  String slices
 `source[1..len-1]` / `[3..len-3]` are total on string tokens (they start and end with the ASCII
-quotes); the token already carries the inner text.
+quotes); the token already carries the inner text.  Loops are fuel-indexed (`fuelFor` gives ample
+fuel); a "first item, then loop" function spends one unit before its first item so that its fuel
+use is the same as that of the reference grammar's list functions (Lemmas/GqlSchemaParse.lean).
 -/
 import IsoVerif.Model.GqlParse
 
@@ -170,8 +172,11 @@ def parseMoreArguments (resume : Bool) : Nat → List Tok → R FieldList
 def parseOptionalConstantArguments (resume : Bool) (f : Nat) (ts : List Tok) : R FieldList :=
   match tokPunct .lparen ts with
   | .ok _ r =>
-    (parseNameValuePair resume f r).bind fun nv r1 =>
-    (parseMoreArguments resume f r1).bind fun fs r2 => .ok (.cons nv.1 nv.2 fs) r2
+    match f with
+    | 0 => .err r
+    | f' + 1 =>
+      (parseNameValuePair resume f' r).bind fun nv r1 =>
+      (parseMoreArguments resume f' r1).bind fun fs r2 => .ok (.cons nv.1 nv.2 fs) r2
   | _ => .ok .nil ts
 
 /-- `parse_constant_directives` -/
@@ -233,8 +238,11 @@ def parseOptionalArgumentDefinitions (resume : Bool) (opn close : Punct) (f : Na
     R (List InputVal) :=
   match tokPunct opn ts with
   | .ok _ r =>
-    (parseArgumentDefinition resume f r).bind fun v r1 =>
-    (parseMoreArgumentDefinitions resume close f r1).bind fun vs r2 => .ok (v :: vs) r2
+    match f with
+    | 0 => .err r
+    | f' + 1 =>
+      (parseArgumentDefinition resume f' r).bind fun v r1 =>
+      (parseMoreArgumentDefinitions resume close f' r1).bind fun vs r2 => .ok (v :: vs) r2
   | _ => .ok [] ts
 
 /-- `parse_field` -/
@@ -260,8 +268,11 @@ def parseMoreFields (resume : Bool) : Nat → List Tok → R (List FieldDef)
 def parseOptionalFields (resume : Bool) (f : Nat) (ts : List Tok) : R (List FieldDef) :=
   match tokPunct .lbrace ts with
   | .ok _ r =>
-    (parseField resume f r).bind fun v r1 =>
-    (parseMoreFields resume f r1).bind fun vs r2 => .ok (v :: vs) r2
+    match f with
+    | 0 => .err r
+    | f' + 1 =>
+      (parseField resume f' r).bind fun v r1 =>
+      (parseMoreFields resume f' r1).bind fun vs r2 => .ok (v :: vs) r2
   | _ => .ok [] ts
 
 /-- the `while parse_token_of_kind(Ampersand).is_ok()` loop of `parse_interfaces` -/
@@ -324,10 +335,9 @@ def parseDirectiveLocations (f : Nat) (ts : List Tok) : R (List Str) :=
   (parseDirectiveLocation r0).bind fun l r1 =>
   (parseMoreLocations f r1).bind fun ls r2 => .ok (l :: ls) r2
 
-/-- `parse_directive_definition` (`let _at = tokens.parse_token_of_kind(TokenKind::At);` — the
-result is not checked) -/
+/-- `parse_directive_definition` (`let _at = tokens.parse_token_of_kind(TokenKind::At)?;`) -/
 def parseDirectiveDefinition (resume : Bool) (f : Nat) (desc : Option Str) (ts : List Tok) : R TsDef :=
-  let r0 := optPunct .at ts
+  (tokPunct .at ts).bind fun _ r0 =>
   (tokName r0).bind fun n r1 =>
   (parseOptionalArgumentDefinitions resume .lparen .rparen f r1).bind fun args r2 =>
   let (rep, r3) : Bool × List Tok :=
